@@ -839,8 +839,9 @@ class IkeSa(object):
                                proposal=chosen_child_proposal, tsi=chosen_tsr, tsr=chosen_tsi, mode=requested_mode,
                                lifetime=ipsec_conf.lifetime, original_proposal=ipsec_conf.proposal)
 
-            self.child_sas.append(child_sa)
+            # only keep track of the CHILD_SA once the kernel has accepted it
             xfrm.Xfrm.create_child_sa(self, child_sa, child_sa_keyring, is_initiator=False)
+            self.child_sas.append(child_sa)
             self.log_info('Created CHILD_SA {} with lifetime = {}'.format(child_sa, child_sa.lifetime))
 
             # generate the response Payload SA
